@@ -148,6 +148,13 @@ def _build(d, maxlen):
         fn = 'ID:' + d.choice(['left-right', 'mid-left', 'len-concat',
                                'replace', 'find-min'])
         s = s if isinstance(s, str) else str(s)
+        if fn != 'ID:find-min' and len(s) < 1000 and d.chance(1, 4):
+            # characters beyond the Basic Multilingual Plane (one code point,
+            # two UTF-16 units): whatever unit the functions count in, they
+            # must count in the SAME one - judged through the identities only
+            i_ = d.pick(len(s) + 1)
+            s = s[:i_] + d.choice([u'\U0001F600', u'\U00020000',
+                                   u'\U0001F600\U0001F600']) + s[i_:]
         args = [s, d.int(0, len(s) + 1), d.int(0, len(s) + 1), _text(d, 3)]
         mode = 'formula'
     if mode == 'formula' and not fn.startswith('ID:') and d.chance(1, 3):
